@@ -5,5 +5,4 @@ package websocketconn
 // Machine-checked contracts (read by /verif/engine; comment-only, compiled only with -tags verif).
 //@ func New(ws *websocket.Conn) (r *Conn)
 //@   props C05, C18
-//@   flag nosafety
 //@   ensures r != nil
